@@ -31,7 +31,22 @@ Fixpoint run_ops (w : world) (addrs denoms : list string) (ops : list cop) : lis
   | [] => []
   | COp o :: rest =>
       let (w', ok) := step w o in
-      VL [vbool ok; snapshot w' addrs denoms] :: run_ops w' addrs denoms rest
+      (* an accepted direct swap also shows the amounts it reports (its event attributes): by C12
+         (SwapProofs.simulation_eq_perform_swap) these are the amounts of the Simulation on the state before it *)
+      let reported :=
+        match o with
+        | Tx _ target (WPm (PmSwap ask _ _ _ pid)) funds =>
+            if ok && String.eqb target PM then
+              match one_coin funds with
+              | Ok offer => match query_simulation (w_pm w) offer ask pid with
+                            | Ok sc => [v_swap_computation sc]
+                            | Err _ => [VL []] end
+              | Err _ => [VL []]
+              end
+            else []
+        | _ => []
+        end in
+      VL ([vbool ok; snapshot w' addrs denoms] ++ reported) :: run_ops w' addrs denoms rest
   | CQuery q :: rest => VL [VZ 2; run_query w q] :: run_ops w addrs denoms rest
   end.
 
